@@ -19,11 +19,14 @@ PROFILES_QUICK = [
     {"cluster_size": 4096, "full": True},
     {"cluster_size": 1 << 20, "full": False},
     {"cluster_size": 65536, "full": True, "sel": 3},
+    {"cluster_size": 126 * 512, "full": True, "sel": 3},   # 63-sector tracks x 2: not a power of two
 ]
 PROFILES_THOROUGH = PROFILES_QUICK + [
     {"cluster_size": 8 << 20, "full": False, "sel": 6},
     {"cluster_size": 256 << 10, "full": False, "sel": 2},
     {"cluster_size": 1024, "full": True, "sel": 2},
+    {"cluster_size": 2000 * 512, "full": False, "sel": 3},
+    {"cluster_size": 6 * 512, "full": True, "sel": 3},
 ]
 
 
@@ -86,10 +89,12 @@ def check_via_hdd(ctx, sts, rng, nsample):
 
 def make_trace(tid, rng, nops=30, **opt):
     ver = rng.choice([1, 2])
-    cs = rng.choice([1 << 20, 1 << 20, 65536, 4096]) if ver == 2 else rng.choice([65536, 4096, 32768])
+    cs = rng.choice([1 << 20, 1 << 20, 65536, 4096, 63 * 512, 1000 * 512]) if ver == 2 else rng.choice([65536, 4096, 32768, 63 * 512, 24 * 512])
     n = rng.randrange(2, 30 if cs <= 65536 else 10)
+    if opt.get("many"):  # a BAT of several hundred entries
+        cs, n = rng.choice([4096, 63 * 512]), rng.randrange(200, 500)
     parent = rng.random() < 0.3
-    tail = rng.choice([0, 0, 512, cs // 2, cs - 512])
+    tail = rng.choice([0, 0, 512, cs // 1024 * 512, cs - 512])
     size_b = n * cs - tail
     if ver == 2:
         hdr_clusters = -(-(64 + 4 * n) // cs)
@@ -142,7 +147,7 @@ def run(ctx):
     diskprop.replay_states(ctx, "hds", sts, PROFILES_THOROUGH if thorough else PROFILES_QUICK, build,
                            attrs_of=_attrs, cap=80 if thorough else 48)
     check_via_hdd(ctx, sts, rng, 120 if thorough else 24)
-    diskprop.traces(ctx, "hds", lambda tid, r: make_trace(tid, r, 40 if thorough else 25), 400 if thorough else 64,
+    diskprop.traces(ctx, "hds", lambda tid, r: make_trace(tid, r, 40 if thorough else 25, many=("mid" if tid % 8 == 0 else None)), 400 if thorough else 64,
                     "TraceDisk", "TraceDisk.cfg", lambda t: {"format": "hds", "ver": t["img"]["ver"], "parent": t["img"]["parent"]})
 
 
